@@ -9,7 +9,7 @@
 //!   item unchanged (modulo derives), opaque structs have only the blob field and no accessors,
 //!   `size_of/align_of` of opaque types vs a clang probe.
 use bgverif::allowmodel::{self as am, PatternSets};
-use bgverif::cgen::{self, DKind, Program};
+use bgverif::allowgen::{self as cgen, DKind, Program};
 use bgverif::drive::{self, Scratch};
 use bgverif::inventory::{self, Leaf};
 use bgverif::irdump;
